@@ -253,6 +253,8 @@ package vuego
 //@   loop 0 invariant C07+C12.w.untouched: out(w) == old(out(w)) && failed(w) == old(failed(w))
 //@   loop 0 invariant C07.depth: 0 <= depth && depth <= maxDepth && maxDepth == 100
 //@   loop 0 decreases C07+C11.chain.ends: maxDepth - depth
+//@   assert C07.current.loaded: $arg0 == filename at "call Load"
+//@   assert C07.relative.current: $arg1 == filename at "call resolveLayoutPath"
 
 //@ func (t *template) Render(ctx, w) (err)
 //@   ensures C12.nothing: err != nil && !failed(w) ==> out(w) == old(out(w))
@@ -384,7 +386,7 @@ package vuego
 
 //@ func (t *template) Fill(vars) (r)
 //@   modifies t.stack
-//@   ensures C08.fill.fresh: fresh(t.stack) && len(t.stack.stack) == 1 && fresh(t.stack.stack[0]) && t.stack.rootData == vars
+//@   ensures C08+C10.fill.fresh: fresh(t.stack) && len(t.stack.stack) == 1 && fresh(t.stack.stack[0]) && t.stack.rootData == vars
 //@   ensures C08.precedence: forall k string ::
 //@     ((k in t.stack.stack[0]) == ((k in t.frontMatter) || passedHas(vars, k) || (k in t.vue.initialData))) &&
 //@     ((k in t.stack.stack[0]) ==> t.stack.stack[0][k] ==
@@ -411,6 +413,21 @@ package vuego
 //@   ensures C18.notexist: firstOpen(o.chainFS, name, 0) < 0 ==> f == nil && err == globalVal("fs.ErrNotExist")
 //@   loop 0 invariant bounds: 0 <= $i && $i <= len(o.chainFS)
 //@   loop 0 invariant C18.scan: firstOpen(o.chainFS, name, 0) == firstOpen(o.chainFS, name, $i)
+
+//@ spec func firstIn(fsys Val, dir string, nm string, j int) Val decreases j {
+//@   j <= 0 ? nil : (firstIn(fsys, dir, nm, j - 1) != nil ? firstIn(fsys, dir, nm, j - 1) : (entryName(dirAt(fsys, dir, j - 1)) == nm ? dirAt(fsys, dir, j - 1) : nil)) }
+//@ spec func firstEntry(chain []fs.FS, dir string, nm string, k int) Val decreases k {
+//@   k <= 0 ? nil : (firstEntry(chain, dir, nm, k - 1) != nil ? firstEntry(chain, dir, nm, k - 1) :
+//@     ((chain[k - 1] != nil && dirOK(chain[k - 1], dir)) ? firstIn(chain[k - 1], dir, nm, dirLen(chain[k - 1], dir)) : nil)) }
+
+//@ func (o *OverlayFS) ReadDir(name) (r, err)
+//@   modifies nothing
+//@   ensures C18.dir.shadow: err == nil ==> forall i int :: 0 <= i && i < len(r) ==> r[i] != nil && r[i] == old(firstEntry(o.chainFS, name, now(entryName(r[i])), len(o.chainFS)))
+//@   loop 0 invariant bounds: 0 <= $i && $i <= len(o.chainFS)
+//@   loop 0 invariant C18.dir.merge: merged != nil && fresh(merged) && forall nm string :: ((nm in merged) <==> old(firstEntry(o.chainFS, name, nm, $i)) != nil) && ((nm in merged) ==> merged[nm] == old(firstEntry(o.chainFS, name, nm, $i)) && entryName(merged[nm]) == nm)
+//@   loop 1 invariant bounds: 0 <= $i && $i <= len(entries)
+//@   loop 1 invariant C18.dir.layer: merged != nil && fresh(merged) && forall nm string :: ((nm in merged) <==> (old(firstEntry(o.chainFS, name, nm, $i0)) != nil || firstIn(chainfs, name, nm, $i) != nil)) && ((nm in merged) ==> entryName(merged[nm]) == nm && merged[nm] == (old(firstEntry(o.chainFS, name, nm, $i0)) != nil ? old(firstEntry(o.chainFS, name, nm, $i0)) : firstIn(chainfs, name, nm, $i)))
+//@   loop 2 invariant C18.dir.collect: fresh(entries) && forall i int :: 0 <= i && i < len(entries) ==> entries[i] != nil && entries[i] == old(firstEntry(o.chainFS, name, now(entryName(entries[i])), len(o.chainFS)))
 
 //@ func NewOverlayFS(upper, lower) (o)
 //@   modifies nothing
